@@ -146,6 +146,25 @@ pub fn check_packet(x: &[u8]) -> Result<String, Fail> {
         Ok(r) => r?,
         Err(p) => return Err(fail(&format!("walk:Question:panic:{}", panic_site(&p)), format!("question walk panicked: {}", p))),
     }
+    // the same question walk once the question memo is filled (question_raw0 / question)
+    let r = caught(|| -> Result<(), Fail> {
+        let _ = pp.question_raw0();
+        let _ = pp.question();
+        let q = &d.msg.q[0];
+        let sp = d.qspan.as_ref().unwrap();
+        match pp.into_iter_question() {
+            None => Err(fail("walk:Question:ended_early", "question walk yields nothing once the question memo is filled".into())),
+            Some(it) => {
+                check_typed(&it, &q.name, q.qtype, q.qclass, Sec::Question, sp.start, sp.end).map_err(|e| fail("walk:Question:accessor", format!("with the question memo filled: {}", e)))?;
+                check_slices(&it, x, sp.start, sp.name_end).map_err(|e| fail("walk:Question:accessor", format!("with the question memo filled: {}", e)))?;
+                Ok(())
+            }
+        }
+    });
+    match r {
+        Ok(r) => r?,
+        Err(p) => return Err(fail(&format!("walk:Question:panic:{}", panic_site(&p)), format!("question walk panicked once the question memo was filled: {}", p))),
+    }
     walk_section(&mut pp, x, &d, Sec::Answer, false)?;
     walk_section(&mut pp, x, &d, Sec::Authority, false)?;
     walk_section(&mut pp, x, &d, Sec::Additional, false)?;
